@@ -306,11 +306,13 @@ def init (forward : Bool) (strategy : Strategy) (com : Composition) (cursor : Na
   else
     initLoop env { s0 with end_ := min (cursor + 1) com.len, begin_ := s0.afterPreviousBreakPoint cursor } d (com.len + 2)
 
-/-- `PhraseSelector::new` + `init_single_word(cursor)` -/
+/-- `PhraseSelector::new` + `init_single_word(cursor)`: `orig` is the position of the word (the symbol
+    before the cursor), as `init` records it (before the F41 fix it was the cursor after the word, and
+    `jump_to_first_selection_point` extended the range over the following symbol) -/
 def initSingleWord (strategy : Strategy) (com : Composition) (cursor : Nat) : Outcome PhraseSel :=
   let e := min cursor com.len
   if e == 0 then .panic "phrase-sel-single-underflow"
-  else .ok { begin_ := e - 1, end_ := e, forward := false, orig := cursor, strategy, com }
+  else .ok { begin_ := e - 1, end_ := e, forward := false, orig := e - 1, strategy, com }
 
 /-- `next_selection_point` -/
 def nextSelectionPoint (s : PhraseSel) (d : D) : Outcome (Option (Nat × Nat)) :=
@@ -1143,14 +1145,16 @@ def Editor.setOptions (e : Editor D L) (o : Options) : Editor D L :=
   let sh := if sh.options.languageMode != o.languageMode then { sh with syl := env.clearSyl sh.syl } else sh
   Editor.leaveIfEmpty env { e with shared := { sh with options := o } }
 
-/-- `Editor::select(n)`; `Bool` = `Ok` -/
+/-- `Editor::select(n)`; `Bool` = `Ok`.  The auto-commit runs only once the candidate list has closed
+    (`self.state.is_entering() &&`, as in `process_keyevent`; before the C01 fix it also ran under a list
+    that stayed open, cutting the buffer from under the selector) -/
 def Editor.select (e : Editor D L) (n : Nat) : Outcome (Editor D L × Bool) :=
   match e.state with
   | .selecting s =>
     match Selecting.select env s e.shared n with
     | .ok (s', sh, t) =>
       let (sh, st) := applyTrans sh (.selecting s') t
-      let r := if sh.last == .absorb then Shared.tryAutoCommit env sh else .ok sh
+      let r := if st == .entering && sh.last == .absorb then Shared.tryAutoCommit env sh else .ok sh
       match r with
       | .ok sh => .ok ({ shared := sh, state := st }, sh.last != .bell)
       | .panic p => .panic p
